@@ -428,7 +428,7 @@ def check_property(prop, tier, seed, replay=None):
     for n, r in undecided:
         print('UNDECIDED unit=%s: %s' % (n, r['reason']), file=sys.stderr)
     for n, x in left_out:
-        print('UNDECIDED unit=%s: lifted block %s left out (%s)' % (n, x['alias'], x['reason']), file=sys.stderr)
+        print('UNDECIDED unit=%s: %s not decided (%s)' % (n, x['alias'], x['reason']), file=sys.stderr)
     for n, t in kani_undecided:
         print('UNDECIDED kani harness=%s: %s' % (n, t), file=sys.stderr)
     if rc == 0:
@@ -649,6 +649,14 @@ def main(argv):
                 cuts.update(ex.get('cut_pins') or {})
         with open(os.path.join(CONTRACTS, 'pinned_cuts.json'), 'w') as f:
             json.dump(cuts, f, indent=1)
+        sqlp = {}
+        for n, u in all_units().items():
+            ub = weave.build_unit(u['path'], REPO)
+            for ex in ub.extracts:
+                if ex.get('sql_hash'):
+                    sqlp['%s::%s::%s' % (ex['file'], ex['path'], ex['alias'])] = ex['sql_hash']
+        with open(os.path.join(CONTRACTS, 'pinned_sql.json'), 'w') as f:
+            json.dump(sqlp, f, indent=1)
         af = assumed_functions()
         for e in af:
             e['pinned'] = assumed_function_hash(REPO, e['file'], e['path'])
